@@ -9,7 +9,7 @@ import (
 func init() {
 	register(&Property{
 		ID: "C17", Level: "exploration", Builds: []string{"plain"},
-		Rule:        "cases over roaring64 with buckets {0,1,2,0x7FFFFFFF,0x80000000,0xFFFFFFFE,0xFFFFFFFF} and random ones, values at 32-bit edges, ranges crossing one and several 2^32 boundaries (<= 3 full buckets per case), buckets that become empty: (a) mutation histories (Add/CheckedAdd/AddInt/AddMany/Remove/CheckedRemove/AddRange/RemoveRange/Flip/Clear/RunOptimize/copy-on-write toggles) with the stored content (decoded from the buckets' raw containers via the 64-bit hook) compared with an interval-set model over uint64 and Validate() after every step; (b) operand pairs x And/Or/Xor/AndNot static, in-place on a clone, in-place on a copy-on-write clone, same object on both sides, plus AndCardinality/OrCardinality/Intersects, static Flip, FastOr/FastAnd/ParOr; (c) queries Rank/Select/Minimum/Maximum/GetCardinality/Contains/Equals and the forward, reverse and batch iterators with PeekNext/AdvanceIfNeeded interleavings, Values/Backward. Plus ALL pairs of subsets of an 8-value 64-bit boundary domain. Non-trivial: non-empty bitmap(s); distinct = hash of the history / operands.",
+		Rule:        "cases over roaring64 with buckets {0,1,2,0x7FFFFFFF,0x80000000,0xFFFFFFFE,0xFFFFFFFF} and random ones, values at 32-bit edges, ranges crossing one and several 2^32 boundaries (<= 3 full buckets per case), buckets that become empty: (a) mutation histories (Add/CheckedAdd/AddInt/AddMany/Remove/CheckedRemove/AddRange/RemoveRange/Flip/Clear/RunOptimize/copy-on-write toggles) with the stored content (decoded from the buckets' raw containers via the 64-bit hook) compared with an interval-set model over uint64 and Validate() after every step; (b) operand pairs x And/Or/Xor/AndNot static, in-place on a clone, in-place on a copy-on-write clone, same object on both sides, plus AndCardinality/OrCardinality/Intersects, static Flip, FastOr/FastAnd/ParOr; (c) queries Rank/Select/Minimum/Maximum/GetCardinality/Contains/Equals and the forward, reverse and batch iterators with PeekNext/AdvanceIfNeeded interleavings, Values/Backward. Plus ALL pairs of subsets of an 8-value 64-bit boundary domain. Non-trivial: non-empty bitmap(s); distinct = hash of the history / operands. Ranges may be empty or inverted; Equals is asked about different sets of equal cardinality; results of static operations (and of static Flip of a copy-on-write shared source) are written into and the inputs re-checked.",
 		Assumptions: []string{"interval-set model validated by selfcheck (also at the top of the uint64 range)", "ranges are half-open [s,e) with e <= 2^64-1 (2^64 is not expressible in the API)"},
 		Units: []Unit{
 			{Name: "histories64", Quick: 1500, Thorough: 80000, Run: c17Histories},
